@@ -175,14 +175,14 @@ func mutexKind(t types.Type) string {
 
 var fsFuncs = map[string]bool{
 	"ReadFile": true, "Open": true, "OpenFile": true, "Create": true, "WriteFile": true, "CreateTemp": true,
-	"Stat": true, "Lstat": true, "Chmod": true, "Rename": true, "Remove": true, "MkdirAll": true,
+	"Stat": true, "Lstat": true, "Chmod": true, "Rename": true, "Remove": true, "MkdirAll": true, "Readlink": true, "Symlink": true,
 }
 
 // os functions that touch the file system or process state and that the
 // simulator does not model: their use is an instrumentation failure.
 var osUnsupported = map[string]bool{
-	"Mkdir": true, "ReadDir": true, "Link": true, "Symlink": true, "Truncate": true, "RemoveAll": true,
-	"Chown": true, "Chtimes": true, "DirFS": true, "Readlink": true, "MkdirTemp": true, "NewFile": true,
+	"Mkdir": true, "ReadDir": true, "Link": true, "Truncate": true, "RemoveAll": true,
+	"Chown": true, "Chtimes": true, "DirFS": true, "MkdirTemp": true, "NewFile": true,
 	"Chdir": true, "Pipe": true, "StartProcess": true, "Lchown": true, "SameFile": true, "CopyFS": true,
 }
 
@@ -256,7 +256,7 @@ func (r *rewriter) dropUnusedImports() {
 		} else {
 			// only the packages we may have emptied
 			switch path {
-			case "os", "io/ioutil", "log", "fmt":
+			case "os", "io/ioutil", "log", "fmt", "sync", "runtime":
 				name = filepath.Base(path)
 			default:
 				continue
@@ -354,12 +354,25 @@ func (r *rewriter) rewriteSelector(c *astutil.Cursor, n *ast.SelectorExpr) {
 	}
 	if r.pkgOf(n.X) == "sync" {
 		switch n.Sel.Name {
-		case "Cond", "NewCond", "Map", "Pool", "Once", "OnceFunc", "OnceValue", "OnceValues":
+		case "Pool":
+			// a deterministic free list instead of per-P caches
+			r.changed = true
+			c.Replace(sim("Pool"))
+			return
+		case "Cond", "NewCond", "Map":
 			fail(r.fset, n.Pos(), "sync."+n.Sel.Name+" is not modelled by the scheduler")
 			return
 		}
 	}
 	switch r.pkgOf(n.X) {
+	case "runtime":
+		switch n.Sel.Name {
+		case "GOMAXPROCS", "NumCPU":
+			// the degree of parallelism is a knob of the simulated run
+			r.changed = true
+			c.Replace(sim(n.Sel.Name))
+		}
+		return
 	case "os":
 		name := n.Sel.Name
 		switch {
